@@ -174,6 +174,8 @@ func (w *World) optionLiterals(typeName string) []OptionLiteral {
 							if s, ok := r2.(*ssa.Store); ok && s.Addr == x {
 								if c, ok := s.Val.(*ssa.Const); ok && c.Value != nil {
 									ol.Fields[fname] = c.Value
+								} else if ok && c.Value == nil {
+									// the zero value of a pointer / interface field: the default
 								} else {
 									ol.Other = append(ol.Other, fname)
 								}
@@ -194,6 +196,51 @@ func (w *World) optionLiterals(typeName string) []OptionLiteral {
 				}
 				out = append(out, ol)
 			}
+		}
+	}
+	// option values kept in package-level variables that only the package
+	// initialiser writes
+	for _, pkg := range []*ssa.Package{w.Root, w.Enc} {
+		init := pkg.Func("init")
+		for _, m := range pkg.Members {
+			g, ok := m.(*ssa.Global)
+			if !ok || init == nil {
+				continue
+			}
+			n, ok := g.Type().(*types.Pointer).Elem().(*types.Named)
+			if !ok || n.Obj().Pkg() == nil || n.Obj().Pkg().Path() != pCBOR || n.Obj().Name() != typeName {
+				continue
+			}
+			ol := OptionLiteral{Fn: init, Type: n, Fields: map[string]constant.Value{}}
+			if !w.readOnlyOutsideInit(g) {
+				ol.Other = append(ol.Other, "(package-level options written or address-taken outside the initialiser)")
+			}
+			st := n.Underlying().(*types.Struct)
+			for _, b := range init.Blocks {
+				for _, in := range b.Instrs {
+					sto, ok := in.(*ssa.Store)
+					if !ok {
+						continue
+					}
+					if sto.Addr == ssa.Value(g) {
+						if c, ok := sto.Val.(*ssa.Const); !ok || c.Value != nil {
+							ol.Other = append(ol.Other, "(whole value assigned)")
+						}
+						continue
+					}
+					fa, ok := sto.Addr.(*ssa.FieldAddr)
+					if !ok || fa.X != ssa.Value(g) {
+						continue
+					}
+					fname := st.Field(fa.Field).Name()
+					if c, ok := sto.Val.(*ssa.Const); ok && c.Value != nil {
+						ol.Fields[fname] = c.Value
+					} else if !ok {
+						ol.Other = append(ol.Other, fname)
+					}
+				}
+			}
+			out = append(out, ol)
 		}
 	}
 	return out
